@@ -4,7 +4,7 @@
 From Coq Require Import NArith ZArith List Bool.
 Import ListNotations.
 Require Import UV.C07.Model UV.C07.Check UV.C07.Proofs UV.C07.Replay UV.C07.RecordReplay.
-Require UV.C07.RecordProof UV.C07.RecordProofCyg UV.C07.RecordProofB UV.C07.RecordProofT UV.C07.RecordProofD UV.C07.Size UV.C07.Range UV.C07.Multi UV.C07.MultiReplay UV.C07.Switch.
+Require UV.C07.RecordProof UV.C07.RecordProofCyg UV.C07.RecordProofB UV.C07.RecordProofT UV.C07.RecordProofD UV.C07.Size UV.C07.Origin UV.C07.Range UV.C07.Multi UV.C07.MultiReplay UV.C07.Switch.
 Local Open Scope Z_scope.
 
 (* get_task_ustack's look-ahead list (time filter -t / time=, caller filter -C, `trace`) hands the
@@ -214,6 +214,37 @@ Theorem C07_record_equals_replay_time_trigger : forall c f,
   rec_then_plain c MC.PG f = plain_then_opt c f.
 Proof. exact RecordProofT.record_equals_replay_time. Qed.
 Print Assumptions C07_record_equals_replay_time_trigger.
+
+(* several tasks, --tid and elapsed ends of -r (-r 100us~): the origin of the elapsed time that fstack_setup_task
+   establishes (setup_first, over the first records of ALL tasks, selected or not) is the time of the oldest record
+   of the whole recording; it does not depend on --tid at all (setup_first has no such argument).  The selected
+   tasks then show exactly their records inside [origin + start, origin + stop], the others nothing
+   (report / graph / dump; replay and script agree with them by C07_commands_agree_replay_tasks). *)
+Theorem C07_elapsed_origin_is_oldest_record : forall ss,
+  Origin.all_sorted ss -> Origin.nonzero ss -> (exists s, In s ss /\ s <> []) ->
+  (exists s r, In s ss /\ In r s /\ r_time r = setup_first ss)
+  /\ forall s r, In s ss -> In r s -> (setup_first ss <= r_time r)%N.
+Proof. exact Origin.origin_is_oldest. Qed.
+Print Assumptions C07_elapsed_origin_is_oldest_record.
+
+Theorem C07_tid_elapsed_range_selects_window : forall c e sel ss t,
+  Range.range_only c -> (t < length ss)%nat ->
+  Range.sorted (nth t ss []) -> dcons 0 (nth t ss []) -> Forall (fun r => r_depth r < gdepth c) (nth t ss []) ->
+  map ob_rt (Multi.of_task t (run_std_m (resolve_range c e ss) (tid_select sel ss)))
+  = if sel t then map Range.shown_rec (filter (fun r => Range.in_window (resolve_range c e ss) (r_time r)) (nth t ss []))
+    else [].
+Proof. exact Origin.tid_elapsed_window. Qed.
+Print Assumptions C07_tid_elapsed_range_selects_window.
+
+(* the code as found (before /repo 5ccb894): only the tasks --tid leaves out counted for the origin, then the first
+   task of the info file: main{1000..} w1{1040..} w2{1100..} with --tid main,w2 counted from 1040, and two tasks
+   listed {1040..} {1000..} without --tid as well *)
+Theorem C07_elapsed_origin_legacy_refuted :
+  setup_first_legacy (fun i => negb (Nat.eqb i 1)) Origin.ss_ex = 1040%N /\ setup_first Origin.ss_ex = 1000%N
+  /\ setup_first_legacy (fun _ => true) [[Origin.r_at 1040]; [Origin.r_at 1000]] = 1040%N
+  /\ setup_first [[Origin.r_at 1040]; [Origin.r_at 1000]] = 1000%N.
+Proof. exact Origin.origin_legacy. Qed.
+Print Assumptions C07_elapsed_origin_legacy_refuted.
 
 (* -Z SIZE / -T f@size=N (analysis time only; tied to the commands at the level of this documented semantics,
    the fstack model has no symbol sizes): -Z alone shows exactly what -H on every smaller function shows - for
